@@ -249,8 +249,37 @@ func structuralSets() []modset {
 	}
 }
 
+// sameNameSets: a well-formed and a cyclic definition share a name, in two
+// modules or in two non-overlapping scopes of one module (any per-name
+// bookkeeping of "already checked" definitions must respect scopes).
+func sameNameSets() []modset {
+	hdr := func(m string) string { return fmt.Sprintf("module %s { namespace \"urn:%s\"; prefix %s;", m, m, m) }
+	two := func(name, cleanA, otherB, expect string) modset {
+		return modset{"same-name:" + name, map[string]string{"a": hdr("a") + cleanA + " }", "b": hdr("b") + otherB + " }"}, expect}
+	}
+	one := func(name, body, expect string) modset {
+		return modset{"same-name:" + name, map[string]string{"a": hdr("a") + body + " }"}, expect}
+	}
+	return []modset{
+		two("grouping:modules:cyclic", " grouping g { leaf l { type string; } } container ua { uses g; }", " grouping g { leaf x { type string; } uses g; } container ub { uses g; }", "error"),
+		two("grouping:modules:clean", " grouping g { leaf l { type string; } } container ua { uses g; }", " grouping g { leaf x { type string; } } container ub { uses g; }", "ok"),
+		two("grouping:modules:cycle2", " grouping g { leaf l { type string; } } grouping h { leaf m { type string; } } container ua { uses g; uses h; }", " grouping g { uses h; } grouping h { uses g; } container ub { uses g; }", "error"),
+		one("grouping:scopes:cyclic", " container x { grouping g { leaf l { type string; } } uses g; } container y { grouping g { leaf m { type string; } uses g; } uses g; }", "error"),
+		one("grouping:scopes:clean", " container x { grouping g { leaf l { type string; } } uses g; } container y { grouping g { leaf m { type string; } } uses g; }", "ok"),
+		two("typedef:modules:cyclic", " typedef t { type int8; } leaf la { type t; }", " typedef t { type t; } leaf lb { type t; }", "error"),
+		two("typedef:modules:clean", " typedef t { type int8; } leaf la { type t; }", " typedef t { type string; } leaf lb { type t; }", "ok"),
+		one("typedef:scopes:cyclic", " container x { typedef t { type int8; } leaf l { type t; } } container y { typedef t { type t; } leaf l { type t; } }", "error"),
+		one("typedef:scopes:cycle2", " container x { typedef t { type int8; } typedef u { type t; } leaf l { type u; } } container y { typedef t { type u; } typedef u { type t; } leaf l { type t; } }", "error"),
+		two("identity:modules:cyclic", " identity i; leaf la { type identityref { base i; } }", " identity i { base i; } leaf lb { type identityref { base i; } }", "error"),
+		two("identity:modules:cycle2", " identity i; identity j { base i; } leaf la { type identityref { base i; } }", " identity i { base j; } identity j { base i; } leaf lb { type identityref { base i; } }", "error"),
+		two("feature:modules:cyclic", " feature f; leaf la { if-feature f; type string; }", " feature f { if-feature f; } leaf lb { if-feature f; type string; }", "error"),
+		two("feature:modules:cycle2", " feature f; feature h { if-feature f; } leaf la { if-feature h; type string; }", " feature f { if-feature h; } feature h { if-feature f; } leaf lb { if-feature f; type string; }", "error"),
+	}
+}
+
 func allSets(quick bool) []modset {
 	var out []modset
+	out = append(out, sameNameSets()...)
 	for _, rel := range []string{"typedef", "grouping", "identity", "feature"} {
 		for _, sh := range shapes {
 			out = append(out, modset{Name: rel + ":" + sh, Mods: map[string]string{"a": baseA(relationBody(rel, sh)), "b": modB}, Expect: expectFor(sh)})
